@@ -4,16 +4,22 @@
    Check/CheckExamplesC10.v (inhabitation).
 
    [validate p <> Ok []] = "not reported valid".  A raised exception is not a report: by
-   C16_always_a_verdict_partial, under crash_free the conclusion strengthens to "a non-empty
-   list of messages is printed" (C10_reported_under_guard). *)
+   C16_always_a_verdict, for every AST of the grammar's shape the conclusion strengthens to "a
+   non-empty list of messages is printed" (C10_reported).
+
+   History: recursion (D8), faults inside parallel loops (D9), loop limits (D10), the nested
+   literal rules (D12a) and the raising lookups (D11) were repaired in /repo; their former
+   `_refuted` theorems are now the positive theorems C10_F19_recursive_call,
+   C10_F01/F16 (whose fault predicates now look into parallel loops), C10_bad_loop_limit and
+   the reports listed in C10_formerly_accepted_now_reported. *)
 From PFDL Require Import Base Syntax.
 From PFDL.Check Require Import CheckModel CheckProofsC10 CheckProofsNoExn CheckRefuted CheckExamplesC10
      Typing Guards Witnesses.
 
 (* ---- the generic descent lemma -------------------------------------------------------- *)
-(* Whatever the validator reports for a sub-statement s' it reaches inside s (loop bodies,
-   Passed, Failed, to any depth; not below a parallel loop) it reports for s, and s is valid
-   only if s' is. *)
+(* Whatever the validator reports for a sub-statement s' inside s (loop bodies, Passed,
+   Failed, the call of a parallel loop, to any depth) it reports for s, and s is valid only
+   if s' is. *)
 Theorem C10_descent : forall E T s rel s',
   visible_sub s rel s' ->
   forall pi b es, check_stmt E T pi s = Ok (b, es) ->
@@ -83,15 +89,22 @@ Print Assumptions C10_F15_undeclared_task_output.
 Theorem C10_F16_wrong_arity : forall p, has_fault_wrong_arity p = true -> validate p <> Ok [].
 Proof. exact wrong_arity_rejected. Qed.
 Print Assumptions C10_F16_wrong_arity.
+Theorem C10_F19_recursive_call : forall p, has_fault_recursive_call p = true -> validate p <> Ok [].
+Proof. exact recursive_call_rejected. Qed.
+Print Assumptions C10_F19_recursive_call.
+(* F04 / F05 / F18 in the limit of a (parallel) counting loop *)
+Theorem C10_bad_loop_limit : forall p, has_fault_bad_limit p = true -> validate p <> Ok [].
+Proof. exact bad_limit_rejected. Qed.
+Print Assumptions C10_bad_loop_limit.
 Theorem C10_F20_bad_parallel_loop : forall p, has_fault_bad_parallel_loop p = true -> validate p <> Ok [].
 Proof. exact bad_parallel_loop_rejected. Qed.
 Print Assumptions C10_F20_bad_parallel_loop.
 
-(* under the guard of C16 "not accepted" is "reported with at least one message" *)
-Theorem C10_reported_under_guard : forall p,
-  crash_free p = true -> validate p <> Ok [] -> reported p.
-Proof. exact reported_under_guard. Qed.
-Print Assumptions C10_reported_under_guard.
+(* "not accepted" is "reported with at least one message" *)
+Theorem C10_reported : forall p,
+  from_grammar p = true -> validate p <> Ok [] -> reported p.
+Proof. exact reported_from_grammar. Qed.
+Print Assumptions C10_reported.
 
 (* the predicates are inhabited (fault nested in a loop and a Failed branch) and false of
    the fault-free example *)
@@ -112,40 +125,37 @@ Theorem C10_fault_predicates_inhabited :
   /\ has_fault_wrong_arity w_f_F16c = true /\ has_fault_wrong_arity w_f_F16d = true
   /\ has_fault_wrong_arity w_f_F16e = true
   /\ has_fault_bad_parallel_loop w_f_F20a = true /\ has_fault_bad_parallel_loop w_f_F20b = true
-  /\ has_fault_bad_parallel_loop w_f_F20c = true /\ has_fault_bad_parallel_loop w_f_F20d = true.
+  /\ has_fault_bad_parallel_loop w_f_F20c = true /\ has_fault_bad_parallel_loop w_f_F20d = true
+  /\ has_fault_recursive_call w_D8_self_recursion = true /\ has_fault_recursive_call w_mutual_recursion = true
+  /\ has_fault_recursive_call w_recursion_through_parallel = true
+  /\ has_fault_recursive_call w_recursion_through_parloop = true
+  /\ has_fault_unknown_task w_D9_unknown_task_in_parallel_loop = true
+  /\ has_fault_wrong_arity w_parloop_wrong_arity = true
+  /\ has_fault_bad_limit w_D10_undeclared_limit = true /\ has_fault_bad_limit w_limit_unknown_attribute = true
+  /\ has_fault_bad_limit w_limit_string = true.
 Proof. exact fault_predicates_inhabited. Qed.
 Print Assumptions C10_fault_predicates_inhabited.
 
-(* ---- classes for which the statement is false of the faithful model (known findings) ---- *)
-(* F19 recursion (D8): self, mutual, through Parallel, through a parallel loop *)
-Theorem C10_F19_recursion_refuted :
-  (has_recursion w_D8_self_recursion = true /\ validate w_D8_self_recursion = Ok [])
-  /\ (has_recursion w_mutual_recursion = true /\ validate w_mutual_recursion = Ok [])
-  /\ (has_recursion w_recursion_through_parallel = true /\ validate w_recursion_through_parallel = Ok [])
-  /\ (has_recursion w_recursion_through_parloop = true /\ validate w_recursion_through_parloop = Ok []).
-Proof. exact recursion_accepted_all. Qed.
-Print Assumptions C10_F19_recursion_refuted.
-(* F01 / F16 / F17 inside a parallel loop (D9): the descent stops at parallel loops *)
-Theorem C10_parallel_loop_call_refuted :
-  (sh_parloop_call w_D9_unknown_task_in_parallel_loop = true /\ validate w_D9_unknown_task_in_parallel_loop = Ok [])
-  /\ (sh_parloop_call w_parloop_wrong_arity = true /\ validate w_parloop_wrong_arity = Ok []).
-Proof. exact parallel_loop_call_accepted_all. Qed.
-Print Assumptions C10_parallel_loop_call_refuted.
-(* F04 / F05 / F18 in a loop limit (D10) *)
-Theorem C10_loop_limit_refuted :
-  (has_bad_limit w_D10_undeclared_limit = true /\ validate w_D10_undeclared_limit = Ok [])
-  /\ (has_bad_limit w_limit_unknown_attribute = true /\ validate w_limit_unknown_attribute = Ok [])
-  /\ (has_bad_limit w_limit_string = true /\ validate w_limit_string = Ok []).
-Proof. exact loop_limit_accepted_all. Qed.
-Print Assumptions C10_loop_limit_refuted.
-(* F06 nested missing attribute, F08 primitive in an array of structs (D12a) *)
-Theorem C10_literal_refuted :
-  (sh_bad_literal w_D12a_missing_attribute_in_nested_literal = true
-   /\ validate w_D12a_missing_attribute_in_nested_literal = Ok [])
-  /\ (sh_bad_literal w_D12a_number_in_struct_array = true /\ validate w_D12a_number_in_struct_array = Ok []).
-Proof. exact literal_accepted_all. Qed.
-Print Assumptions C10_literal_refuted.
-(* F18 ill-typed guards (D12b) *)
+(* ---- repaired: what was accepted or raised is reported, at the offending statement ------ *)
+Theorem C10_formerly_accepted_now_reported :
+  validate w_D8_self_recursion = Ok [(KRecursion, CStmt 1 [1])]
+  /\ validate w_mutual_recursion = Ok [(KRecursion, CStmt 1 [1]); (KRecursion, CStmt 2 [0])]
+  /\ validate w_recursion_through_parallel = Ok [(KRecursion, CStmt 1 [1; 0])]
+  /\ validate w_recursion_through_parloop = Ok [(KRecursion, CStmt 1 [1; 0])]
+  /\ validate w_D9_unknown_task_in_parallel_loop = Ok [(KUnknownTask, CStmt 0 [1; 0])]
+  /\ validate w_parloop_wrong_arity = Ok [(KInLen, CStmt 0 [1; 0])]
+  /\ validate w_D10_undeclared_limit = Ok [(KUnknownVariable, CStmt 0 [1])]
+  /\ validate w_limit_unknown_attribute = Ok [(KNoAttribute, CStmt 0 [1])]
+  /\ validate w_limit_string = Ok [(KLimitNotNumber, CStmt 0 [1])]
+  /\ validate w_D12a_missing_attribute_in_nested_literal = Ok [(KMissingAttr, CLitJson 0 [0] 0)]
+  /\ validate w_D12a_number_in_struct_array
+     = Ok [(KArrayElem, CLitJson 0 [0] 0); (KWrongTypeArray, CLit 0 [0] 0)].
+Proof. exact formerly_accepted_now_reported. Qed.
+Print Assumptions C10_formerly_accepted_now_reported.
+
+(* ---- the class for which the statement is still false of the faithful model --------------- *)
+(* F18 ill-typed guards (known finding D12b): a string or a number as condition, numbers under
+   And / Or / !, a boolean literal in arithmetic *)
 Theorem C10_F18_guard_type_refuted :
   (sh_bad_guard w_D12b_string_as_condition = true /\ validate w_D12b_string_as_condition = Ok [])
   /\ (sh_bad_guard w_D12b_number_under_and = true /\ validate w_D12b_number_under_and = Ok [])
@@ -154,12 +164,3 @@ Theorem C10_F18_guard_type_refuted :
   /\ (sh_bad_guard w_number_as_condition = true /\ validate w_number_as_condition = Ok []).
 Proof. exact guard_type_accepted_all. Qed.
 Print Assumptions C10_F18_guard_type_refuted.
-(* F04 / F05 as operand of a comparison, F05 index on a non-array, F07 unknown key in a nested
-   literal: an exception instead of a report (D11; see the C16_refuted theorems) *)
-Theorem C10_raises_instead_of_reporting :
-  validate w_D11a_undeclared_operand = Exn KeyError
-  /\ validate w_unknown_attribute_operand = Exn KeyError
-  /\ validate w_D11c_index_on_struct_attribute = Exn AttributeError
-  /\ validate w_D11d_unknown_key_in_nested_literal = Exn KeyError.
-Proof. exact raises_instead_of_reporting_all. Qed.
-Print Assumptions C10_raises_instead_of_reporting.
